@@ -19,6 +19,14 @@ Static half (the "translator" tie, every run):
   Coq trace in the evidence; equal to none => the transcription is out of date: dynamic tests decide, else
   no-failing-input-found naming the correspondence.
 
+  Pooled buffers (added after seeded change C18-e): the same extractor (tools/locktable/poolcheck.go) checks, for every
+  function of the library, that a buffer of the process-wide byte-buffer pool (internal/utils GetBuffer/ReleaseBuffer)
+  is released at most once on every path (no explicit release beside a pending `defer`, no two releases), is not used
+  after its release and does not escape through `return` while a release is pending: a buffer put back twice is handed
+  to two goroutines working on independent handles.  A finding is attached to the failing dynamic test
+  (TestVerifC18_FaultyOpensBesideHealthyReaders: [pool-alias] / [result-diff] / race report) when there is one,
+  otherwise it is reported as no-failing-input-found.
+
 Dynamic half (search / correspondence): the overlay tests harness/overlay/**/zz_verif_c18_test.go are
   compiled with -race against the current tree and run with several GOMAXPROCS values: independent
   handles vs the sequential result, foreground API vs the background workers at microsecond intervals,
@@ -39,6 +47,8 @@ TRUSTED = [
     "sections under the object's mutex are single steps; scheduler fairness is not modelled (progress = enabledness + measure)",
     "C18: the tree-level system (c) counts a goroutine as a worker until it has executed `ir.running = false`; a goroutine that has only "
     "its deferred ticker.Stop()/close(stoppedChan) left can coexist with the goroutine of a newer rebalancer (C18_tree_exiting_overlap_example)",
+    "C18: the pooled-buffer analysis (tools/locktable/poolcheck.go) is syntactic and intraprocedural: buffers stored in struct fields, "
+    "released by a callee, or aliased other than by plain assignment / slicing are not followed; it has no Coq counterpart",
     "C18: the Go race detector and runtime.NumGoroutine are the search half (schedules explored, not all schedules)",
 ]
 ASSUMPTIONS = ["sync.Mutex / RWMutex / WaitGroup / channels / sync.atomic behave as documented (Go memory model)"]
@@ -290,7 +300,26 @@ def static_half(ctx, viol, known, cov, ks):
             diff = {f: dict(current=cur[f], patched=spec["patched"][f]) for f in spec["functions"] if cur[f] != spec["patched"][f]}
             shape_bad.append(dict(group=g, what="the synchronisation skeleton of %s no longer matches any transcription in Model/Lifecycle.v" % ", ".join(sorted(diff)), diff=diff, nofail=True))
     cov["protocol_shapes"] = variants
-    return dict(static_bad=static_bad, pv_bad=pv_bad, shape_bad=shape_bad, table_v=gen_text, entries=len(entries))
+    # pooled-buffer discipline (tools/locktable/poolcheck.go)
+    pool_bad = []
+    cov["side_obligations"] += 1
+    pool = data.get("pool")
+    if not pool or not pool.get("api_found") or not pool.get("pool_call_sites"):
+        pool_bad.append(dict(kind="extractor", what="the pooled-buffer analysis no longer finds utils.GetBuffer / utils.ReleaseBuffer (or any call of them) "
+                                  "in the source: the buffer pool was renamed or replaced and the analysis is out of date", finding=pool))
+    else:
+        for f in pool["findings"]:
+            k = match_location(ks, "pool:" + f["func"])
+            if k:
+                known.append("%s: pooled buffer %s in %s: %s at %s [static table]" % (k["id"], f["var"], f["func"], f["kind"], f["pos"]))
+            else:
+                pool_bad.append(dict(kind=f["kind"], finding=f,
+                                     what="pooled buffer `%s` in %s: %s at %s (%s)" % (f["var"], f["func"], f["kind"], f["pos"], f["note"])))
+        if not pool["findings"]:
+            cov["side_discharged"] += 1
+    cov["pool_discipline"] = dict(functions_with_pool=(pool or {}).get("functions_with_pool"), pool_call_sites=(pool or {}).get("pool_call_sites"),
+                                  bodies_scanned=(pool or {}).get("bodies_scanned"), findings=(pool or {}).get("findings"))
+    return dict(static_bad=static_bad, pv_bad=pv_bad, shape_bad=shape_bad, pool_bad=pool_bad, table_v=gen_text, entries=len(entries))
 
 
 # ----------------------------------------------------------------------------- dynamic half
@@ -377,9 +406,13 @@ def list_tests(binp, cwd):
 
 
 def run_one(job):
-    binp, cwd, test, procs, seed, iters, tmo = job
+    binp, cwd, test, procs, seed, iters, tmo = job[:7]
     env = dict(os.environ, GOMAXPROCS=str(procs), VERIF_C18_SEED=str(seed), VERIF_C18_ITERS=str(iters),
                GORACE="halt_on_error=0 history_size=3")
+    if len(job) > 7 and job[7] is not None:
+        env["VERIF_C18_SWEEP"] = str(job[7])       # quick tier: the processes of a run share the sweep over the cut lengths
+    else:
+        env.pop("VERIF_C18_SWEEP", None)
     t0 = time.time()
     try:
         p = subprocess.run([binp, "-test.run", "^%s$" % test, "-test.count=1", "-test.v", "-test.timeout", "%ds" % tmo],
@@ -387,7 +420,7 @@ def run_one(job):
         out, rc = p.stdout + p.stderr, p.returncode
     except subprocess.TimeoutExpired as e:
         out, rc = ((e.stdout or b"").decode("utf8", "replace") if isinstance(e.stdout, bytes) else (e.stdout or "")) + "\n[harness-timeout]", -9
-    return dict(test=test, procs=procs, seed=seed, iters=iters, rc=rc, out=out, wall=time.time() - t0)
+    return dict(test=test, procs=procs, seed=seed, iters=iters, rc=rc, out=out, wall=time.time() - t0, sweep=env.get("VERIF_C18_SWEEP"))
 
 
 def classify(res, ks):
@@ -395,6 +428,7 @@ def classify(res, ks):
     viol, known = [], []
     out = res["out"]
     replay = dict(test=res["test"], GOMAXPROCS=res["procs"], VERIF_C18_SEED=res["seed"], VERIF_C18_ITERS=res["iters"],
+                  VERIF_C18_SWEEP=res.get("sweep"),
                   command="go test -tags verif -overlay <overlay.json> -race -count=1 -run '^%s$' (package of the test) with the env above" % res["test"])
     seen = set()
     for r in parse_races(out):
@@ -460,8 +494,9 @@ def dynamic_half(ctx, viol, known, cov, ks):
         tests[name] = list_tests(binp, cwd)
         for t in tests[name]:
             for rnd in range(rounds):
-                for pc in procs:
-                    jobs.append((binp, cwd, t, pc, ctx.seed + 1000 * rnd + pc, iters, 240 if quick else 600))
+                for ip, pc in enumerate(procs):
+                    jobs.append((binp, cwd, t, pc, ctx.seed + 1000 * rnd + pc, iters, 240 if quick else 600,
+                                 (ip + ctx.seed) % 2 if quick else None))
     if not any(tests.values()):
         viol.append(dict(what="no TestVerifC18 tests found in the overlay build", nofail=True, correspondence="harness/overlay/**/zz_verif_c18_test.go"))
         return
@@ -548,6 +583,19 @@ def run(ctx):
             else:
                 viol.append(dict(what=rec["what"], nofail=True, case=rec,
                                  correspondence="tools/c18_protocol_shape.json (golden skeletons of the code Model/Lifecycle.v transcribes) vs tools/locktable on the current source; theorems C18_inc_*, C18_smart_*, C18_tree_*"))
+        for rec in st["pool_bad"]:
+            # a buffer that is in the pool twice: the faulty-opens test is the search for a failing input
+            hit = (next((x for x in dyn if x.get("failure_class") == "pool-alias"), None)
+                   or next((x for x in dyn if (x.get("failing_input") or {}).get("test") == "TestVerifC18_FaultyOpensBesideHealthyReaders"), None)
+                   or next((x for x in dyn if x.get("failure_class") == "result-diff"), None))
+            if hit and rec["kind"] != "extractor":
+                hit.setdefault("pool_discipline", []).append(rec)
+                if "pooled buffer" not in hit["what"]:
+                    hit["what"] += "; static analysis: " + rec["what"]
+            else:
+                viol.append(dict(what=rec["what"], nofail=True, case=rec,
+                                 correspondence="tools/locktable/poolcheck.go on the current source: every buffer of the shared byte-buffer pool is "
+                                                "released at most once on every path and not used or returned afterwards"))
         for rec in st["pv_bad"]:
             viol.append(dict(what="package-level variable %s is written outside init (%s)" % (rec["variable"], rec["writes"][0]["func"]),
                              nofail=True, correspondence="package-level state of the library is immutable after init", case=rec))
@@ -615,7 +663,7 @@ def replay(ctx, path):
     else:
         viol, known, cov = [], [], dict(evaluations=0)
         st = static_half(ctx, viol, known, cov, ks)
-        fails = viol + (st["static_bad"] + st["pv_bad"] if st else [])
+        fails = viol + (st["static_bad"] + st["pv_bad"] + st["pool_bad"] if st else [])
         for f in fails:
             print("REPRODUCED (static): " + (f.get("what") or f.get("location") or f.get("variable")))
     if not fails:
